@@ -78,5 +78,5 @@ Proof. vm_compute. reflexivity. Qed.
 
 (* all 7 groups x 5 state kinds were probed: initial, shrunk, with a side ratio above one; and 7 x 4 states with the
    cell declared hexagonal / tetragonal *)
-Theorem all_states_probed : length gen_bounds = 133%nat.
+Theorem all_states_probed : length gen_bounds = 161%nat.
 Proof. vm_compute. reflexivity. Qed.
